@@ -104,10 +104,11 @@ the statement fails with that error; nothing changes but the cache. -/
 theorem update_cat_fail {s : Store} {pt sch : Levels} {tbls : List (Bytes × Levels)} (h : Cat s pt sch tbls)
     (table : Bytes) (t : Levels) (ht : (table, t) ∈ tbls) (schema : List FieldDef)
     (hsch : schemaOf sch table = some schema) (rowId : Nat) (cols : List String) (src : List Val)
+    (hnames : checkColumns schema cols = none)
     (c : LeafCell) (hc : c ∈ live t) (e : SErr)
     (hbody : ∀ (x : LeafCell × Nat) (s : Store), x.1 = c → updBody schema rowId cols src x s = .err e s) :
     ∃ s', update table rowId cols src s = .err e s' ∧ Same s s' ∧ Cat s' pt sch tbls := by
-  obtain ⟨s4, cs, hs, hc4, hcs, _, hrun⟩ := update_prefix h table t ht schema hsch rowId cols src
+  obtain ⟨s4, cs, hs, hc4, hcs, _, hrun⟩ := update_prefix h table t ht schema hsch rowId cols src hnames
   have hbad : ∃ a ∈ cs, ¬ (a.1.key ≠ rowId ∨ a.1 ≠ c) := by
     rw [← hcs] at hc
     obtain ⟨a, ha, rfl⟩ := List.mem_map.mp hc
@@ -154,9 +155,10 @@ theorem update_cat_fail {s : Store} {pt sch : Levels} {tbls : List (Bytes × Lev
 theorem update_cat_undecodable {s : Store} {pt sch : Levels} {tbls : List (Bytes × Levels)}
     (h : Cat s pt sch tbls) (table : Bytes) (t : Levels) (ht : (table, t) ∈ tbls) (schema : List FieldDef)
     (hsch : schemaOf sch table = some schema) (rowId : Nat) (cols : List String) (src : List Val)
+    (hnames : checkColumns schema cols = none)
     (c : LeafCell) (hc : c ∈ live t) (hk : c.key = rowId) (hdec : decRow schema c.val = none) :
     ∃ s', update table rowId cols src s = .err .decode s' ∧ Same s s' ∧ Cat s' pt sch tbls := by
-  apply update_cat_fail h table t ht schema hsch rowId cols src c hc
+  apply update_cat_fail h table t ht schema hsch rowId cols src hnames c hc
   intro x s0 hxc
   unfold updBody
   have hb : (x.1.key != rowId) = false := by simp [hxc, hk]
@@ -174,11 +176,12 @@ of range): the encoder's error. -/
 theorem update_cat_encode_error {s : Store} {pt sch : Levels} {tbls : List (Bytes × Levels)}
     (h : Cat s pt sch tbls) (table : Bytes) (t : Levels) (ht : (table, t) ∈ tbls) (schema : List FieldDef)
     (hsch : schemaOf sch table = some schema) (rowId : Nat) (cols : List String) (src : List Val)
+    (hnames : checkColumns schema cols = none)
     (c : LeafCell) (hc : c ∈ live t) (hk : c.key = rowId) (m : Vals) (err : TErr)
     (hdec : decodeTuple schema c.val [] = .ok m)
     (henc : encodeTuple schema ((cols.zip src).reverse ++ m) = .error err) :
     ∃ s', update table rowId cols src s = .err (serrOf err) s' ∧ Same s s' ∧ Cat s' pt sch tbls := by
-  apply update_cat_fail h table t ht schema hsch rowId cols src c hc
+  apply update_cat_fail h table t ht schema hsch rowId cols src hnames c hc
   intro x s0 hxc
   unfold updBody
   have hb : (x.1.key != rowId) = false := by simp [hxc, hk]
@@ -195,12 +198,13 @@ theorem update_cat_encode_error {s : Store} {pt sch : Levels} {tbls : List (Byte
 theorem update_cat_too_large {s : Store} {pt sch : Levels} {tbls : List (Bytes × Levels)}
     (h : Cat s pt sch tbls) (table : Bytes) (t : Levels) (ht : (table, t) ∈ tbls) (schema : List FieldDef)
     (hsch : schemaOf sch table = some schema) (rowId : Nat) (cols : List String) (src : List Val)
+    (hnames : checkColumns schema cols = none)
     (c : LeafCell) (hc : c ∈ live t) (hk : c.key = rowId) (m : Vals) (buf : Bytes)
     (hdec : decodeTuple schema c.val [] = .ok m)
     (henc : encodeTuple schema ((cols.zip src).reverse ++ m) = .ok buf)
     (hlen : buf.length > c_maxValueSize) :
     ∃ s', update table rowId cols src s = .err .rowTooLarge s' ∧ Same s s' ∧ Cat s' pt sch tbls := by
-  apply update_cat_fail h table t ht schema hsch rowId cols src c hc
+  apply update_cat_fail h table t ht schema hsch rowId cols src hnames c hc
   intro x s0 hxc
   unfold updBody
   have hb : (x.1.key != rowId) = false := by simp [hxc, hk]
